@@ -20,10 +20,22 @@ Ltac prtail OTH om' jt i :=
                        | cbn; unfold upd; cbn; destruct (Nat.eqb j i) eqn:EE; [apply Nat.eqb_eq in EE; lia|reflexivity]
                        | reflexivity ] ].
 
+Ltac wframe HW Hth i :=
+  let X := fresh "X" in
+  intros X; destruct (HW X) as [HWa|[HWb|[jw [HWj [HWs HWp]]]]];
+  [ left; exact HWa | right; left; exact HWb
+  | right; right; exists jw; split; [exact HWj|]; unfold spend; cbn; unfold upd; cbn;
+    destruct (Nat.eqb jw i) eqn:EW;
+    [ apply Nat.eqb_eq in EW; subst jw; cbn in HWp, HWs; rewrite Hth in HWp, HWs; cbn in HWp, HWs; first [discriminate HWs | discriminate HWp]
+    | split; [exact HWs|exact HWp] ] ].
+Ltac wnew Hi i :=
+  intros _; right; right; exists i; split; [exact Hi|]; unfold spend; cbn; unfold upd; cbn;
+  rewrite Nat.eqb_refl; cbn; split; reflexivity.
+
 Lemma ss_step_prod s i pick s' : Rss lims s -> exec P s (LStep (S i) pick) = Some s' -> Rss lims s'.
 Proof.
   intros (p0 & st0 & r0 & c0 & l0 & cu0 & om & Ht0 & HOM & Hn & Hpa & Hf & Hok0 & Hreg & Hc0 & Hm1 & Homlt &
-          HownO & Hal & Hq & HG & Hran & Hsub & Hch & HPR) E.
+          HownO & Hal & Hq & HW & HG & Hran & Hsub & Hch & HPR) E.
   unfold exec in E. rewrite Hf, Hn in E.
   destruct (S i <? 1 + NS lims) eqn:Elt; cbn [negb] in E; [|discriminate E].
   apply Nat.ltb_lt in Elt. assert (Hi : i < NS lims) by lia.
@@ -42,7 +54,7 @@ Proof.
   - (* Fresh -> Ready *)
     inversion E; subst s'; clear E.
     unfold Rss. exists p0, st0, r0, c0, l0, cu0, om. cbn. unfold upd. cbn.
-    sp; auto; try (split; [|split]; assumption).
+    sp; auto; try (split; [|split]; assumption); try (wframe HW Hth i).
     prtail OTH om ltac:(left; reflexivity) i.
     cbn in Hpk. apply Nat.eqb_eq in Hpk. subst pp.
     do 4 eexists; cbn; unfold upd; cbn; rewrite ?Nat.eqb_refl; cbn; rewrite ?Hth; cbn; sp; try reflexivity; auto.
@@ -56,7 +68,7 @@ Proof.
       match type of E with context [if ?c then _ else _] => destruct c eqn:EB end;
       inversion E; subst s'; clear E.
       all: unfold Rss; exists p0, st0, r0, c0, l0, cu0, om; cbn; unfold upd; cbn;
-           sp; auto; try (split; [|split]; assumption).
+           sp; auto; try (split; [|split]; assumption); try (wframe HW Hth i).
       all: prtail OTH om ltac:(left; reflexivity) i.
       all: do 4 eexists; cbn; unfold upd; cbn; rewrite ?Nat.eqb_refl; cbn; rewrite ?Hth; cbn; sp; try reflexivity; auto.
       all: split; intro X; [apply Hom in X; discriminate X|discriminate X].
@@ -64,7 +76,7 @@ Proof.
       rewrite HOM in E. destruct om as [o|] eqn:Eom; [discriminate E|].
       inversion E; subst s'; clear E.
       unfold Rss. exists p0, st0, r0, c0, l0, cu0, (Some (S i)). cbn. unfold upd. cbn.
-      sp; auto; try (split; [|split]; assumption).
+      sp; auto; try (split; [|split]; assumption); try (wframe HW Hth i).
       * split; intro X; [apply Hm1 in X; discriminate X|discriminate X].
       * intros t Xt. inversion Xt. lia.
       * intros r Hr. destruct r as [|[|[|r]]]; try lia; cbn; apply HownO; lia.
@@ -74,7 +86,7 @@ Proof.
     + (* 2: IPush INQ *)
       inversion E; subst s'; clear E.
       unfold Rss. exists p0, st0, r0, c0, l0, cu0, om. cbn. unfold upd. cbn.
-      sp; auto.
+      sp; auto; try (wnew Hi i).
       * split; [|split]; try assumption.
         intros X. apply (inl3637 p0 c0 i) in X. apply Hjn in X. discriminate X.
       * rewrite HG. rewrite <- !app_assoc. reflexivity.
@@ -92,7 +104,7 @@ Proof.
       rewrite HOM, Xo in E. rewrite Nat.eqb_refl in E.
       inversion E; subst s'; clear E.
       unfold Rss. exists p0, st0, r0, c0, l0, cu0, None. cbn. unfold upd. cbn.
-      sp; auto; try (split; [|split]; assumption).
+      sp; auto; try (split; [|split]; assumption); try (wnew Hi i).
       * split; intro X; [apply Hm1 in X; rewrite Xo in X; discriminate X|discriminate X].
       * intros t Xt. discriminate Xt.
       * intros r Hr. destruct r as [|[|[|r]]]; try lia; cbn; apply HownO; lia.
@@ -102,21 +114,21 @@ Proof.
     + (* 4: IInc PIPE *)
       inversion E; subst s'; clear E.
       unfold Rss. exists p0, st0, r0, c0, l0, cu0, om. cbn. unfold upd. cbn.
-      sp; auto; try (split; [|split]; assumption).
+      sp; auto; try (split; [|split]; assumption); try (intros _; left; cbn; unfold upd; cbn; discriminate).
       prtail OTH om ltac:(left; reflexivity) i.
       do 4 eexists; cbn; unfold upd; cbn; rewrite ?Nat.eqb_refl; cbn; rewrite ?Hth; cbn; sp; try reflexivity; auto.
       all: try (split; intro X; [apply Hom in X; discriminate X|discriminate X]).
     + (* 5: IJmp 0 *)
       inversion E; subst s'; clear E.
       unfold Rss. exists p0, st0, r0, c0, l0, cu0, om. cbn. unfold upd. cbn.
-      sp; auto; try (split; [|split]; assumption).
+      sp; auto; try (split; [|split]; assumption); try (wframe HW Hth i).
       prtail OTH om ltac:(left; reflexivity) i.
       do 4 eexists; cbn; unfold upd; cbn; rewrite ?Nat.eqb_refl; cbn; rewrite ?Hth; cbn; sp; try reflexivity; auto.
       all: try (split; intro X; [apply Hom in X; discriminate X|discriminate X]).
     + (* 6: IEnd *)
       inversion E; subst s'; clear E.
       unfold Rss. exists p0, st0, r0, c0, l0, cu0, om. cbn. unfold upd. cbn.
-      sp; auto; try (split; [|split]; assumption).
+      sp; auto; try (split; [|split]; assumption); try (wframe HW Hth i).
       prtail OTH om ltac:(left; reflexivity) i.
       do 4 eexists; cbn; unfold upd; cbn; rewrite ?Nat.eqb_refl; cbn; rewrite ?Hth; cbn; sp; try reflexivity; auto.
       all: try (intros _; reflexivity).
